@@ -7,7 +7,6 @@ Implementation of Validating JWT Access Tokens per `Section 4`_.
 """
 
 from authlib.jose import jwt
-from authlib.jose.errors import DecodeError
 from authlib.jose.errors import JoseError
 from authlib.oauth2.rfc6750.errors import InsufficientScopeError
 from authlib.oauth2.rfc6750.errors import InvalidTokenError
@@ -116,7 +115,7 @@ class JWTBearerTokenValidator(BearerTokenValidator):
                 claims_cls=JWTAccessTokenClaims,
                 claims_options=claims_options,
             )
-        except DecodeError as exc:
+        except (JoseError, ValueError) as exc:
             raise InvalidTokenError(
                 realm=self.realm, extra_attributes=self.extra_attributes
             ) from exc
